@@ -1548,6 +1548,15 @@ impl<'l> CelCompiler<'l> {
         Ok(inits)
     }
 
+    /// True if the code, or a code block operand inside it, pushes the name of a clock function.
+    fn names_clock_function(code: &crate::types::CelByteCode) -> bool {
+        code.iter().any(|b| match b {
+            ByteCode::Push(CelValue::Ident(name)) => CLOCK_FUNCTIONS.contains(&name.as_str()),
+            ByteCode::Push(CelValue::ByteCode(inner)) => Self::names_clock_function(inner),
+            _ => false,
+        })
+    }
+
     #[inline]
     fn check_for_const(&self, member_prime_node: CompiledProg) -> CompiledProg {
         let mut i = Interpreter::empty();
@@ -1559,10 +1568,12 @@ impl<'l> CelCompiler<'l> {
         // the program runs: every identifier in it must name a function, macro or type
         // (a variable or another program is only known at run time, an unbound one
         // would be frozen as a failure), and it must not read the clock.
+        // (`'x'.now()` reaches the clock through a method name, which is not among the
+        // identifiers the program reads, so the code itself is searched as well.)
         let closed = details.params().into_iter().all(|name| {
             (self.bindings.is_bound(name) || self.bindings.get_type(name).is_some())
                 && !CLOCK_FUNCTIONS.contains(&name)
-        });
+        }) && !Self::names_clock_function(&bc);
 
         if !closed {
             return CompiledProg::new(NodeValue::Bytecode(bc.into()), details);
